@@ -1,7 +1,10 @@
 (* Model of font/charcode/codec.go and range.go (C12).
-   Definitions only; proofs are in CodecProofs.v so that the model can be
-   extracted and run even when a proof breaks. *)
-From Coq Require Import List NArith Lia Bool.
+   Definitions only; proofs are in the Codec*Proofs files so that the model can
+   be extracted and run even when a proof breaks.
+
+   Faithful to the Go source as it is now (after fix F4: the descriptor of a
+   subtree lists its invalid gaps).  Bytes are [N]; a range is (Low, High). *)
+From Coq Require Import List Arith NArith Lia Bool.
 From GoPdf.Base Require Import Bytes.
 Import ListNotations.
 Open Scope N_scope.
@@ -44,15 +47,19 @@ Fixpoint prefix_match (lo hi s : list byte) : nat :=
   end.
 Definition longest_prefix (csr : list range) (s : list byte) : nat :=
   fold_right (fun (r : range) m => Nat.max (prefix_match (fst r) (snd r) s) m) O csr.
+
+(* minLength: the shortest code length of a list of ranges, 1 for the empty list *)
+Definition min_length (rs : list range) : nat :=
+  match rs with
+  | [] => 1
+  | r :: rest => fold_left (fun m (x : range) => Nat.min m (length (fst x))) rest (length (fst r))
+  end.
+
 (* 9.7.6.3: the shortest code among the ranges that share the longest possible prefix *)
 Definition spec_consume (csr : list range) (s : list byte) : nat :=
   let best := longest_prefix csr s in
   let cands := filter (fun r : range => Nat.eqb (prefix_match (fst r) (snd r) s) best) csr in
-  let m := match cands with
-           | [] => 1%nat
-           | r :: rest => fold_left (fun m (x : range) => Nat.min m (length (fst x))) rest (length (fst r))
-           end in
-  Nat.min m (length s).
+  Nat.min (min_length cands) (length s).
 
 (* what Decode must return as (consumed, valid) *)
 Definition spec_decode (csr : list range) (s : list byte) : nat * bool :=
@@ -75,42 +82,51 @@ Fixpoint insert_sorted (x : N) (l : list N) : list N :=
   | [] => [x]
   | y :: r => if x <? y then x :: l else if x =? y then l else y :: insert_sorted x r
   end.
+(* the sorted key set of the `breaks` map *)
 Definition breaks (rs : list range) (depth : nat) : list N :=
   fold_left (fun acc (r : range) =>
      insert_sorted (nth depth (fst r) 0) (insert_sorted (nth depth (snd r) 0 + 1) acc))
      rs [0; 256].
-Definition min_length (rs : list range) : nat :=
-  match rs with
-  | [] => 1
-  | r :: rest => fold_left (fun m (x : range) => Nat.min m (length (fst x))) rest (length (fst r))
-  end.
+(* r.Low[depth] <= high && r.High[depth] >= low *)
 Definition overlaps (depth : nat) (lo hi : N) (r : range) : bool :=
   (nth depth (fst r) 0 <=? hi) && (lo <=? nth depth (snd r) 0).
+Definition is_leaf_at (depth : nat) (r : range) : bool := Nat.eqb (length (fst r)) (depth + 1).
 
-(* one interval [lo, hi] of the current depth *)
-Inductive built := BErr | BNode (n : tnode).
+(* the node for one interval [lo, hi] of the current depth; None = errInvalidCodeSpaceRange *)
+Definition interval_node (rec : list range -> option (list (byte * tnode)))
+           (rs : list range) (depth : nat) (lo hi : N) : option tnode :=
+  let child := filter (overlaps depth lo hi) rs in
+  match child with
+  | [] => Some (TInvalid (min_length rs - (depth + 1)))
+  | _ =>
+    let nl := length (filter (is_leaf_at depth) child) in
+    if Nat.eqb nl (length child) then Some TLeaf
+    else if Nat.eqb nl 0 then
+      match rec child with
+      | Some cc => Some (TSub cc)
+      | None => None
+      end
+    else None            (* a code is a prefix of another *)
+  end.
 
+(* the loop over consecutive break points *)
+Fixpoint build_intervals (rec : list range -> option (list (byte * tnode)))
+         (rs : list range) (depth : nat) (bs : list N) : option (list (byte * tnode)) :=
+  match bs with
+  | lo :: ((hi1 :: _) as rest) =>
+    match interval_node rec rs depth lo (hi1 - 1), build_intervals rec rs depth rest with
+    | Some n, Some tl => Some ((hi1 - 1, n) :: tl)
+    | _, _ => None
+    end
+  | _ => Some []
+  end.
+
+(* newTree; fuel bounds the depth, exhaustion is an error *)
 Fixpoint new_tree (fuel : nat) (rs : list range) (depth : nat) : option (list (byte * tnode)) :=
-  match fuel with O => None | S fuel =>
-  (fix go (bs : list N) (acc : list (byte * tnode)) :=
-     match bs with
-     | lo :: ((hi1 :: _) as rest) =>
-       let hi := hi1 - 1 in
-       let child := filter (overlaps depth lo hi) rs in
-       match child with
-       | [] => go rest (acc ++ [(hi, TInvalid (min_length rs - (depth + 1)))])
-       | _ =>
-         let nl := length (filter (fun r : range => Nat.eqb (length (fst r)) (depth + 1)) child) in
-         if Nat.eqb nl (length child) then go rest (acc ++ [(hi, TLeaf)])
-         else if Nat.eqb nl 0 then
-           match new_tree fuel child (depth + 1) with
-           | Some cc => go rest (acc ++ [(hi, TSub cc)])
-           | None => None
-           end
-         else None            (* errInvalidCodeSpaceRange: a code is a prefix of another *)
-       end
-     | _ => Some acc
-     end) (breaks rs depth) []
+  match fuel with
+  | O => None
+  | S fuel =>
+    build_intervals (fun child => new_tree fuel child (depth + 1)) rs depth (breaks rs depth)
   end.
 
 (* NewCodec: validity of every range, then the tree (depth at most 4) *)
@@ -156,52 +172,92 @@ Fixpoint set_nth {A} (n : nat) (x : A) (l : list A) : list A :=
 
 Definition lin_state := (list lnode * list (list byte * N))%type.
 
-Fixpoint append_nodes (fuel : nat) (cs : list (byte * tnode)) (st : lin_state) : (N * lin_state) :=
-  match fuel with O => (0, st) | S fuel =>
+Definition children_of (n : tnode) : list (byte * tnode) :=
+  match n with TSub cc => cc | _ => [] end.
+
+(* result of the lineariser: LOverflow = the `overflow` flag is set (NewCodec then returns
+   errTooManyNodes), LPanic = panic("unreachable") *)
+Inductive lres (A : Type) := LOk (a : A) | LOverflow | LPanic.
+Arguments LOk {A} a.
+Arguments LOverflow {A}.
+Arguments LPanic {A}.
+
+(* linearizer.AppendNodes(t.children) for the node [n]; the result is the uint16 position of
+   the group and the new state.  Once the flag is set every pending call returns at once, so
+   the flag is modelled as a result that propagates. *)
+Fixpoint append_nodes (n : tnode) (st : lin_state) {struct n} : lres (N * lin_state) :=
   let '(nodes, done) := st in
   let base := length nodes in
-  let nodes := nodes ++ map (fun p : byte * tnode => {| bound := fst p; child := 0 |}) cs in
-  let '(_, nodes, done) :=
-    fold_left (fun (st : nat * list lnode * list (list byte * N)) (p : byte * tnode) =>
-      let '(i, nodes, done) := st in
-      let d := desc_of (snd p) in
-      match lookup_done d done with
-      | Some idx => (S i, set_nth (base + i) {| bound := fst p; child := idx |} nodes, done)
-      | None =>
-        let cc := match snd p with TSub cc => cc | _ => [] end in
-        let '(pos, (nodes, done)) := append_nodes fuel cc (nodes, done) in
-        (S i, set_nth (base + i) {| bound := fst p; child := pos |} nodes, (d, pos) :: done)
-      end) cs (O, nodes, done) in
-  (N.of_nat base, (nodes, done))
+  (* base+len(bb) > int(invalidConsume3) *)
+  if 65532 <? N.of_nat (base + length (children_of n)) then LOverflow else
+  let nodes := nodes ++ map (fun p : byte * tnode => {| bound := fst p; child := 0 |}) (children_of n) in
+  let final :=
+    match n with
+    | TSub cs =>
+      (fix loop (l : list (byte * tnode)) (i : nat) (st : lin_state) {struct l} : lres lin_state :=
+         match l with
+         | [] => LOk st
+         | (h, c) :: r =>
+           let '(nodes, done) := st in
+           let d := desc_of c in
+           match lookup_done d done with
+           | Some idx => loop r (S i) (set_nth (base + i) {| bound := h; child := idx |} nodes, done)
+           | None =>
+             match append_nodes c (nodes, done) with
+             | LOverflow => LOverflow
+             | LPanic => LPanic
+             | LOk (pos, (nodes, done)) =>
+               if (N.to_nat pos <=? base + i)%nat then LPanic
+               else loop r (S i) (set_nth (base + i) {| bound := h; child := pos |} nodes, (d, pos) :: done)
+             end
+           end
+         end) cs O (nodes, done)
+    | _ => LOk (nodes, done)
+    end in
+  match final with
+  | LOk st => LOk (N.of_nat base mod 65536, st)       (* uint16(base) *)
+  | LOverflow => LOverflow
+  | LPanic => LPanic
   end.
 
 Definition init_done : list (list byte * N) :=
-  [([1;2], 0); ([0;3], 65532); ([0;2], 65533); ([0;1], 65534); ([0;0], 65535)].
+  [([0;0], 65535); ([0;1], 65534); ([0;2], 65533); ([0;3], 65532); ([1;2], 0)].
 
-Definition linearize (t : list (byte * tnode)) : list lnode :=
-  fst (snd (append_nodes 6 t ([], init_done))).
+Definition linearize (t : list (byte * tnode)) : lres (list lnode) :=
+  match append_nodes (TSub t) ([], init_done) with
+  | LOk (_, (nodes, _)) => LOk nodes
+  | LOverflow => LOverflow
+  | LPanic => LPanic
+  end.
 
-Definition codec (rs : list range) : option (list lnode) :=
+(* NewCodec: None = an error is returned (invalid range set, a code that is a prefix of another,
+   or errTooManyNodes); Some None = panic in the lineariser; Some (Some nodes) = the codec *)
+Definition codec (rs : list range) : option (option (list lnode)) :=
   match new_codec_tree rs with
-  | Some t => Some (linearize t)
+  | Some t =>
+    match linearize t with
+    | LOk nodes => Some (Some nodes)
+    | LOverflow => None
+    | LPanic => Some None
+    end
   | None => None
   end.
 
 (* ---------- Decode / AppendCode on the linearised nodes ---------- *)
 
 (* inner `for { node = nodes[cur]; if b <= node.bound {break}; cur++ }`;
-   None = index out of range (a Go panic) *)
-Fixpoint scan_nodes (fuel : nat) (nodes : list lnode) (cur : nat) (b : byte) : option lnode :=
+   None = index out of range (a Go panic); the second component is the index found *)
+Fixpoint scan_nodes (fuel : nat) (nodes : list lnode) (cur : nat) (b : byte) : option (lnode * nat) :=
   match fuel with O => None | S fuel =>
   match nth_error nodes cur with
   | None => None
-  | Some n => if b <=? bound n then Some n else scan_nodes fuel nodes (S cur) b
+  | Some n => if b <=? bound n then Some (n, cur) else scan_nodes fuel nodes (S cur) b
   end end.
 
 (* little-endian accumulation of up to k further bytes *)
-Fixpoint take_extra (k : nat) (s : list byte) (shift : N) (code : N) (consumed : nat) : N * nat :=
+Fixpoint take_extra (k : nat) (s : list byte) (code : N) (consumed : nat) : N * nat :=
   match k, s with
-  | S k', b :: s' => take_extra k' s' (shift + 8) (N.lor code (N.shiftl b shift)) (S consumed)
+  | S k', b :: s' => take_extra k' s' (N.lor code (N.shiftl b (8 * N.of_nat consumed))) (S consumed)
   | _, _ => (code, consumed)
   end.
 
@@ -216,18 +272,25 @@ Fixpoint ldecode (fuel : nat) (nodes : list lnode) (cur : nat) (s : list byte)
     let consumed := S consumed in
     match scan_nodes 257 nodes cur b with
     | None => None
-    | Some n =>
+    | Some (n, _) =>
       if child n =? 0 then Some (code, consumed, true)
       else if 65532 <=? child n then
-        let '(code, consumed) :=
-           take_extra (N.to_nat (65535 - child n)) s' (8 * N.of_nat consumed) code consumed in
+        let '(code, consumed) := take_extra (N.to_nat (65535 - child n)) s' code consumed in
         Some (code, consumed, false)
       else ldecode fuel nodes (N.to_nat (child n)) s' code consumed
     end
   end end.
 
+(* Decode: one iteration of the outer loop per input byte *)
 Definition decode (nodes : list lnode) (s : list byte) : option (N * nat * bool) :=
   ldecode (S (length s)) nodes 0 s 0 0.
+
+(* the next k bytes of a code, least significant first *)
+Fixpoint code_bytes (code : N) (k : nat) : list byte :=
+  match k with
+  | O => []
+  | S k' => N.land code 255 :: code_bytes (N.shiftr code 8) k'
+  end.
 
 Fixpoint lappend (fuel : nat) (nodes : list lnode) (cur : nat) (code : N) (acc : list byte)
   : option (list byte) :=
@@ -237,19 +300,18 @@ Fixpoint lappend (fuel : nat) (nodes : list lnode) (cur : nat) (code : N) (acc :
   let code := N.shiftr code 8 in
   match scan_nodes 257 nodes cur b with
   | None => None
-  | Some n =>
+  | Some (n, _) =>
     if child n =? 0 then Some acc
-    else if 65532 <=? child n then
-      let k := N.to_nat (65535 - child n) in
-      Some (acc ++ map (fun i => N.land (N.shiftr code (8 * N.of_nat i)) 255) (seq 0 k))
+    else if 65532 <=? child n then Some (acc ++ code_bytes code (N.to_nat (65535 - child n)))
     else lappend fuel nodes (N.to_nat (child n)) code acc
   end end.
 
-(* AppendCode; the loop terminates because child links point forward: fuel = number of nodes + 1 *)
+(* AppendCode: the Go loop has no bound of its own; a code has at most four
+   bytes, so five iterations suffice (proved for every validated node array) *)
 Definition append_code (nodes : list lnode) (code : N) : option (list byte) :=
-  lappend (S (length nodes)) nodes 0 code [].
+  lappend 5 nodes 0 code [].
 
-(* ---------- CodeSpaceRange reported by the codec (walk, without the merge step) ---------- *)
+(* ---------- CodeSpaceRange reported by the codec: walk, then the merge loop ---------- *)
 Fixpoint lwalk (fuel : nat) (nodes : list lnode) (cur : nat) (next_low : N) (low high : list byte)
   : option (list range) :=
   match fuel with O => None | S fuel =>
@@ -273,4 +335,154 @@ Fixpoint lwalk (fuel : nat) (nodes : list lnode) (cur : nat) (next_low : N) (low
     end
   end end.
 Definition walk_ranges (nodes : list lnode) : option (list range) :=
-  lwalk (5 * S (length nodes) * 257) nodes 0 0 [] [].
+  lwalk (5 * 257) nodes 0 0 [] [].
+
+(* ---------- certified validator: the node array realises the tree ---------- *)
+
+(* bounds strictly ascending, the last one 255 *)
+Fixpoint group_shape (prev : option N) (cs : list (byte * tnode)) : bool :=
+  match cs with
+  | [] => match prev with Some p => p =? 255 | None => false end
+  | (h, _) :: r =>
+    (match prev with Some p => p <? h | None => true end) && (h <? 256) && group_shape (Some h) r
+  end.
+
+(* [d] = number of bytes consumed when the node [n] has been selected (0 for the
+   root); [c] = the child field that leads to it *)
+Fixpoint lin_node (nodes : list lnode) (d : nat) (n : tnode) (c : N) {struct n} : bool :=
+  match n with
+  | TLeaf => (c =? 0) && (d <=? 4)%nat
+  | TInvalid k => (k <=? 3)%nat && (c =? 65535 - N.of_nat k) && (d + k <=? 4)%nat
+  | TSub cc =>
+    (c <? 65532) && (d <? 4)%nat && group_shape None cc &&
+    (match d with O => c =? 0 | S _ => 0 <? c end) &&
+    (fix go (cs : list (byte * tnode)) (cur : nat) {struct cs} : bool :=
+       match cs with
+       | [] => true
+       | (h, n') :: r =>
+         match nth_error nodes cur with
+         | Some ln => (bound ln =? h) && lin_node nodes (S d) n' (child ln) && go r (S cur)
+         | None => false
+         end
+       end) cc (N.to_nat c)
+  end.
+
+Definition lin_ok (nodes : list lnode) (t : list (byte * tnode)) : bool :=
+  lin_node nodes 0 (TSub t) 0.
+
+(* little-endian value of a byte string, first byte at bit 8*c *)
+Fixpoint le_at (c : nat) (s : list byte) : N :=
+  match s with
+  | [] => 0
+  | b :: r => N.lor (N.shiftl b (8 * N.of_nat c)) (le_at (S c) r)
+  end.
+Definition le_code (s : list byte) : N := le_at 0 s.
+
+(* the ranges of a tree, in the order of walk *)
+Fixpoint tree_ranges_node (n : tnode) (low2 high2 : list byte) {struct n} : list range :=
+  match n with
+  | TLeaf => [(low2, high2)]
+  | TInvalid _ => []
+  | TSub cc =>
+    (fix go (cs : list (byte * tnode)) (next_low : N) {struct cs} : list range :=
+       match cs with
+       | [] => []
+       | (h, n') :: r =>
+         tree_ranges_node n' (low2 ++ [next_low]) (high2 ++ [h]) ++
+         (if h =? 255 then [] else go r (h + 1))
+       end) cc 0
+  end.
+Definition tree_ranges (t : list (byte * tnode)) : list range := tree_ranges_node (TSub t) [] [].
+
+(* ---------- CodeSpaceRange(): the merge loop after walk ---------- *)
+
+(* canMerge(r, s): same length, equal in every position but at most one, where r ends
+   just below the start of s *)
+Fixpoint can_merge_loop (rl rh sl sh : list byte) (num_adj : nat) : bool :=
+  match rl, rh, sl, sh with
+  | a :: rl', b :: rh', c :: sl', d :: sh' =>
+    if (a =? c) && (b =? d) then can_merge_loop rl' rh' sl' sh' num_adj
+    else if (b + 1 =? c) && Nat.eqb num_adj 0 then can_merge_loop rl' rh' sl' sh' (S num_adj)
+    else false
+  | _, _, _, _ => true
+  end.
+Definition can_merge (r s : range) : bool :=
+  Nat.eqb (length (fst r)) (length (fst s)) && can_merge_loop (fst r) (snd r) (fst s) (snd s) 0.
+
+(* `for r.Low[pos] == s.Low[pos] && r.High[pos] == s.High[pos] { pos++ }`; None = index out of range *)
+Fixpoint merge_pos (rl rh sl sh : list byte) : option nat :=
+  match rl, rh, sl, sh with
+  | a :: rl', b :: rh', c :: sl', d :: sh' =>
+    if (a =? c) && (b =? d) then
+      match merge_pos rl' rh' sl' sh' with Some p => Some (S p) | None => None end
+    else Some O
+  | _, _, _, _ => None
+  end.
+
+(* all candidates (pos, i, j), i <> j, in the order of the two nested loops; None = panic *)
+Definition merge_candidates (csr : list range) : option (list (nat * nat * nat)) :=
+  fold_right (fun (ij : nat * nat) (acc : option (list (nat * nat * nat))) =>
+     let '(i, j) := ij in
+     match acc, nth_error csr i, nth_error csr j with
+     | Some l, Some r, Some s =>
+       if negb (Nat.eqb i j) && can_merge r s then
+         match merge_pos (fst r) (snd r) (fst s) (snd s) with
+         | Some p => Some ((p, i, j) :: l)
+         | None => None
+         end
+       else Some l
+     | _, _, _ => None
+     end)
+    (Some [])
+    (list_prod (seq 0 (length csr)) (seq 0 (length csr))).
+
+Definition cand_lt (a b : nat * nat * nat) : bool :=
+  let '(p1, i1, j1) := a in
+  let '(p2, i2, j2) := b in
+  Nat.ltb p1 p2 || (Nat.eqb p1 p2 && (Nat.ltb i1 i2 || (Nat.eqb i1 i2 && Nat.ltb j1 j2))).
+(* candidates[0] after sort.Slice by (pos, i, j): the least element (the keys are distinct) *)
+Definition least_candidate (l : list (nat * nat * nat)) : option (nat * nat * nat) :=
+  match l with
+  | [] => None
+  | c :: r => Some (fold_left (fun m x => if cand_lt x m then x else m) r c)
+  end.
+
+Fixpoint remove_nth {A} (n : nat) (l : list A) : list A :=
+  match n, l with
+  | O, _ :: r => r
+  | S n', x :: r => x :: remove_nth n' r
+  | _, [] => []
+  end.
+
+(* one round: None = panic, Some None = no candidate left, Some (Some l) = merged *)
+Definition merge_step (csr : list range) : option (option (list range)) :=
+  match merge_candidates csr with
+  | None => None
+  | Some cands =>
+    match least_candidate cands with
+    | None => Some None
+    | Some (_, i, j) =>
+      match nth_error csr i, nth_error csr j with
+      | Some r, Some s => Some (Some (remove_nth j (set_nth i (fst r, snd s) csr)))
+      | _, _ => None
+      end
+    end
+  end.
+
+Fixpoint merge_loop (fuel : nat) (csr : list range) : option (list range) :=
+  match fuel with
+  | O => None
+  | S fuel =>
+    match merge_step csr with
+    | None => None
+    | Some None => Some csr
+    | Some (Some csr') => merge_loop fuel csr'
+    end
+  end.
+
+(* Codec.CodeSpaceRange(); every round removes one range, so length+1 rounds suffice *)
+Definition code_space_range (nodes : list lnode) : option (list range) :=
+  match walk_ranges nodes with
+  | Some csr => merge_loop (S (length csr)) csr
+  | None => None
+  end.
